@@ -71,6 +71,8 @@ PROGRAMS = {
         ["declare", "g", "ryd_glob"], ["declare", "l", "ram_loc", "q0"],
         ["add", "g", ["cp", 100, S("a0", lo=0, hi=10), 0.0, 0.0]], ["add", "l", ["cp", 40, 1.0, 0.0, 0.0], "no-delay"],
         ["delay", "l", 16], ["align", ["g", "l"], False], ["add", "g", ["cp", 40, 1.0, 0.0, 0.0]],
+        # a zero-length delay is not a no-op when at_rest=True (it still waits for the pending fall time)
+        ["delay", "g", 0, True], ["add", "g", ["cp", 40, 1.0, 0.0, 0.0], "no-delay"],
         ["delay", "g", 20, True], ["align", ["l", "g"]], ["add", "l", ["cp", 40, 1.0, 0.0, 0.0], "no-delay"]]),
     "at_rest_b": dict(device="virt", prog=[
         ["declare", "g", "ryd_glob"], ["declare", "l", "ram_loc", "q0"],
@@ -159,6 +161,13 @@ PARAM_PROGRAMS = {
         ["add", "g", ["cp", 12, 1.0, 0.0, 0.0]],
         ["phase_shift", 0.75, ["q0", "q1"], "ground-rydberg"],
         ["add", "g", ["cp", 12, 1.0, E("neg", ["var", "a"]), 0.0]]]),
+    # strided / reversed / offset slices of an array variable as the values of an InterpolatedWaveform with DEFAULT times
+    # (the serializer has to know how many values the slice has)
+    "vars_strided": dict(device="mock", vars=[("arr", "float", 5)], concrete_vars=True, prog=[
+        ["declare", "g", "rydberg_global"],
+        ["add", "g", ["pulse", ["interp", 40, E("slice", "arr", None, None, 2)], ["interp", 40, E("slice", "arr", 1, None, 3)], 0.0]],
+        ["add", "g", ["cdet", ["interp", 24, E("slice", "arr", None, None, -2)], 0.5, 0.0]],
+        ["add", "g", ["cdet", ["interp", 24, E("slice", "arr", 1, 4)], 0.5, 0.0]]]),
     "vars_dmm": dict(device="mock", vars=[("x", "float", 1)], prog=[
         ["declare", "g", "rydberg_global"], ["config_dmap", {"q0": 1.0, "q1": 0.5, "q2": 0.0}, "dmm_0"],
         ["add_dmm", "dmm_0", ["ramp", 16, E("neg", ["var", "x"]), E("div", ["neg", ["var", "x"]], 2.0)]],
